@@ -185,7 +185,7 @@ func runHarness(prog *ssa.Program, fn *ssa.Function, cfg HarnessCfg, workers int
 		cfg.MaxConc = 64
 	}
 	if cfg.TimeoutMs == 0 {
-		cfg.TimeoutMs = 600
+		cfg.TimeoutMs = 300
 	}
 	h := &HarnessRun{cfg: cfg, fn: fn, prog: prog, redirect: map[string]*ssa.Function{}}
 	h.cond = sync.NewCond(&h.mu)
